@@ -185,7 +185,8 @@ def _shard_worker(check_id: str, tier: str, seed: int, shard: int, examples: int
             if time.time() - start > deadline_s and not state["failed"]:
                 result["budget_exhausted"] = True
                 return
-            if state["failed"] and time.time() - state["failed_at"] > shrink_cap_s and case_hash(case) not in failing:
+            key = case_hash(case)  # before evaluate(), which may stamp the case (sheet row numbers)
+            if state["failed"] and time.time() - state["failed_at"] > shrink_cap_s and key not in failing:
                 return  # shrink budget used up: stop exploring smaller cases (known failing cases still fail -> no flakiness)
             out = mod.evaluate(case)
             record(case, out)
@@ -198,7 +199,7 @@ def _shard_worker(check_id: str, tier: str, seed: int, shard: int, examples: int
                 if not state["failed"]:
                     state["failed"] = True
                     state["failed_at"] = time.time()
-                failing.add(case_hash(case))
+                failing.add(key)
                 raise Violation(clause, detail, case)
 
         phases = [Phase.generate, Phase.shrink] if shrink else [Phase.generate]
